@@ -4,6 +4,9 @@ package logging
 
 import (
 	"bytes"
+	"strings"
+
+	"github.com/sirupsen/logrus"
 
 	"github.com/cossacklabs/acra/zz_verif/verif"
 )
@@ -94,6 +97,46 @@ func VerifC20_LookalikeIntegrityField() {
 	err := verifVerify(key, false, written)
 	verif.Reach("verified")
 	verif.Assert(err == nil, "lookalike-field-chain-verifies")
+}
+
+// VerifC20_CefFormatterLookalike: entries rendered by the real CEF formatter from a message that contains text looking
+// like the integrity field and other CEF syntax characters: the honest log verifies, and an edit of that entry is
+// reported.
+func VerifC20_CefFormatterLookalike() {
+	key := verif.Bytes("key", 4)
+	tail := verif.Bytes("tail", 2)
+	for i := range tail {
+		verif.Assume(verif.And(tail[i] > ' ', tail[i] < 0x7f))
+	}
+	msgs := []string{"login ok", "token integrity=" + string(tail), "next"}
+	hook, _ := NewCefFormatterHook(key)
+	f := &CEFTextFormatter{}
+	var written []string
+	for _, m := range msgs {
+		e := &logrus.Entry{Message: m, Level: logrus.InfoLevel, Data: logrus.Fields{FieldKeyVendor: "v", FieldKeyProduct: "p", FieldKeyVersion: "1", FieldKeyEventCode: 100}}
+		line, err := f.Format(e)
+		if err != nil {
+			return
+		}
+		buf := &bytes.Buffer{}
+		buf.Write(line)
+		if hook.PostFormat(e, buf) != nil {
+			return
+		}
+		b := buf.Bytes()
+		written = append(written, string(b[:len(b)-1]))
+	}
+	verif.Reach("written")
+	verif.Assert(verifVerify(key, true, written) == nil, "cef-chain-with-lookalike-message-verifies")
+	// one character of the second entry's message edited
+	edited := append([]string{}, written...)
+	i := strings.Index(edited[1], "token")
+	if i < 0 {
+		verif.Assert(false, "message-present-in-line")
+		return
+	}
+	edited[1] = edited[1][:i] + "Token" + edited[1][i+5:]
+	verif.Assert(verifVerify(key, true, edited) != nil, "edit-of-lookalike-entry-detected")
 }
 
 // VerifC20_TamperDetected: editing the authenticated text of an entry, swapping two entries, duplicating one,
